@@ -598,6 +598,15 @@ func (ex *Exec) CallFunction(fn *ssa.Function, args []Value) (st *State, err err
 
 func (ex *Exec) runWorklist() {
 	for len(ex.wl) > 0 {
+		if !ex.Deadline.IsZero() && time.Now().After(ex.Deadline) {
+			// time budget exceeded: abandon the run (nothing is claimed for it)
+			ex.Aborted = true
+			for _, st := range ex.wl {
+				delete(ex.wlIndex, st.key)
+			}
+			ex.wl = nil
+			return
+		}
 		st := ex.pop()
 		ex.runState(st)
 	}
